@@ -92,35 +92,43 @@ func TestWorker(t *testing.T) {
 	}
 }
 
-// watchdog: real time, outside every bubble. A run that makes no progress for 20 s (normal runs take about
-// a millisecond) is reported as a hang, provided the process was not simply kept off the CPUs (StallVerdict).
+// watchdog: outside every bubble. A run that makes no progress for 20 s (normal runs take about a millisecond)
+// is reported as a hang; the 20 s are counted in the process's own time (gosim.CPUShare), so that a starved or
+// throttled process is not taken for a hung one. The driver re-runs a reported case alone before it believes it.
 func watchdog(out *bufio.Writer) {
+	runtime.LockOSThread() // the calibration bursts measure this thread's CPU clock
 	last := progress.Load()
-	snap := gosim.TakeSchedSnap()
+	begin := time.Now()
+	var eff time.Duration // time since the last progress, weighted by the share of a CPU this process could get
+	prev := time.Now()
 	for {
 		time.Sleep(500 * time.Millisecond)
+		share := gosim.CPUShare()
+		now := time.Now()
 		if p := progress.Load(); p != last {
-			last, snap = p, gosim.TakeSchedSnap()
+			last, begin, eff, prev = p, now, 0, now
 			continue
 		}
+		eff += time.Duration(float64(now.Sub(prev)) * share)
+		prev = now
 		var ms runtime.MemStats
-		if time.Since(snap.At) > 2*time.Second {
+		if now.Sub(begin) > 2*time.Second {
 			runtime.ReadMemStats(&ms)
 			if ms.HeapAlloc > 6<<30 {
 				fmt.Fprintf(os.Stdout, "\nM %d\n", curIdx.Load())
 				os.Exit(4)
 			}
 		}
-		// judged by CPU time and run-queue wait, not by wall-clock alone: a starved process is not a hung one
-		switch gosim.StallVerdict(snap, 20*time.Second) {
-		case "hang":
+		// 20 s "of this process's own time": a starved or throttled process is not a hung one
+		switch {
+		case eff > 20*time.Second:
 			fmt.Fprintf(os.Stdout, "\nH %d\n", curIdx.Load())
 			buf := make([]byte, 1<<16)
 			n := runtime.Stack(buf, true)
 			os.Stderr.Write(buf[:n])
 			os.Exit(3)
-		case "give-up":
-			fmt.Fprintf(os.Stderr, "HARNESS: case %d made no progress for 10 minutes while the process was kept from running (saturated machine); inconclusive\n", curIdx.Load())
+		case now.Sub(begin) > 15*time.Minute:
+			fmt.Fprintf(os.Stderr, "HARNESS: case %d made no progress for 15 minutes while the process got almost no CPU (saturated machine); inconclusive\n", curIdx.Load())
 			os.Exit(2)
 		}
 	}
@@ -374,7 +382,7 @@ func handle(t *testing.T, rq *proto.Request) (rs proto.Response) {
 		return
 	}
 	c := rq.Case
-	if c == nil && rq.Op == "describe" {
+	if c == nil && rq.GenTape == nil {
 		var ok bool
 		c, ok = p.Gen(rq.Seed, rq.Tier, rq.Idx)
 		if !ok {
